@@ -28,7 +28,7 @@ def fresh_copy():
 
 
 def run_check(prop, tier="quick"):
-    env = dict(os.environ, VERIF_REPO_ROOT=SCRATCH + "/repo", VERIF_NO_EVIDENCE="1")
+    env = dict(os.environ, VERIF_REPO_ROOT=SCRATCH + "/repo", VERIF_NO_EVIDENCE="1", VERIF_CACHE=SCRATCH + "/cache")
     r = sh("cd %s && python3 -m sa.check %s --tier %s" % (VERIF, prop, tier), env=env)
     return r.returncode, r.stdout
 
